@@ -58,6 +58,37 @@ def run_on_class(d):
     return flat.FlatRun(d, machine_cls=cls, extra_kwargs=kw)
 
 
+def knobs_async():
+    k = knobs_q()
+    k.p_unknown_event = 0.0
+    k.p_bad_dest = 0.0
+    k.p_share_cb = 0.0
+    k.max_history = 8
+    return k
+
+
+def async_oracle(d, r):
+    """the asyncio classes: queued=True (one queue) and queued='model' (judged on one model, where it must coincide
+    with the synchronous queue) follow the same discipline as the synchronous machine"""
+    from .. import asynctwin
+    fp = int(flatcheck.fingerprint(d), 16)
+    out = []
+    qmode = 1 + fp % 2
+    dd = asynctwin.clone(d)
+    if qmode == 2:
+        # per-model queues: comparable with the synchronous queue on a single model
+        keep = dd.models[:1]
+        dd.models = keep
+        # (no remove_model here: a trigger on a REMOVED model finds its per-model queue gone — outside the property)
+        dd.history = [c for c in dd.history if c[1] in keep and c[0] == TRIGGER]
+        dd.script = {k: ([c for c in cmds if c[1] in keep and c[0] == TRIGGER], o) for k, (cmds, o) in dd.script.items()}
+        if not dd.history:
+            return out
+    for w, det in asynctwin.twin_failures(dd, fp, qmode=qmode):
+        out.append((w, det, 'C05.' + w))
+    return out
+
+
 class C05(flatcheck.FlatCheck):
     prop = 'C05'
     manifest = dict(
@@ -72,6 +103,8 @@ class C05(flatcheck.FlatCheck):
                          quick=(16, 300), thorough=(64, 2000)),
         flatcheck.Stream('unqueued', knobs_u, prepare=add_marker, nontrivial=nontrivial,
                          quick=(16, 100), thorough=(32, 1000)),
+        flatcheck.Stream('async-queued', knobs_async, prepare=add_marker, nontrivial=nontrivial, oracle=async_oracle,
+                         quick=(16, 40), thorough=(32, 400)),
         flatcheck.Stream('queued-classes', knobs_q_classes, monitor=monitor, prepare=add_marker, nontrivial=nontrivial,
                          run_factory=run_on_class, quick=(16, 100), thorough=(32, 800)),
     )
